@@ -678,6 +678,14 @@ class CircuitWorld(World):
         # property; with cutoff=0 and for the exact classes 1e-6
         if c["cls"] in MPS and not self.knobs["cutoff0"]:
             return 2e-4
+        # the "nonlocal" gate mode (every multi-qubit gate of the lazy class,
+        # gates on 3+ qubits of the other MPS classes) first writes the gate
+        # as an MPO with ``from_dense``'s own default cutoff 1e-10, whatever
+        # ``cutoff`` the circuit was given: e.g. the ZZ component (weight
+        # theta^2/16) of XXPLUSYY(theta=0.0033) is dropped, a state error of 7e-7
+        if c["cls"] == "CircuitMPSLazy" or (c["cls"] in MPS and any(
+                g["nq"] + len(g.get("controls") or ()) >= 3 for g in c["applied"])):
+            return 2e-4
         return 1e-6
 
     def _op_query(self, op):
